@@ -165,7 +165,10 @@ pub fn dump_parse(input: TokenStream) -> TokenStream {
             for (k, f) in s.fields.iter().enumerate() {
                 let lts = std::panic::catch_unwind(|| difference::used_lifetimes_of(&f.ty)).map(|v| v.iter().map(|x| esc(x) + " ").collect::<String>()).unwrap_or_else(|_| "PANIC ".to_string());
                 let lens = std::panic::catch_unwind(|| difference::array_lens_of(&f.ty)).map(|v| v.iter().map(|x| format!("[ {}] ", relex(x))).collect::<String>()).unwrap_or_else(|_| "PANIC ".to_string());
-                text.push_str(&format!("ITEM {} FUSED{} lifetimes=[ {}] array_lens=[ {}]\n", sname, k, lts, lens));
+                // Type::wraps() and the type's own path: what the used-type-parameter tests of the struct derive compare generic names with
+                let wr = std::panic::catch_unwind(|| f.ty.wraps()).map(|v| v.iter().map(|x| format!("[ {}] ", relex(x))).collect::<String>()).unwrap_or_else(|_| "PANIC ".to_string());
+                let own = std::panic::catch_unwind(|| f.ty.ident.path(&f.ty, false)).map(|x| relex(&x)).unwrap_or_else(|_| "PANIC ".to_string());
+                text.push_str(&format!("ITEM {} FUSED{} lifetimes=[ {}] array_lens=[ {}] wraps=[ {}] own=[ {}]\n", sname, k, lts, lens, wr, own));
             }
         }
         Ok(Data::Enum(e)) => text.push_str(&format!("ITEM {} PARSED {}\n", sname, enum_text(e))),
